@@ -17,6 +17,8 @@ pub struct Clause {
 #[derive(Debug, Clone, Default)]
 pub struct LoopSpec {
     pub iter_name: Option<String>,
+    /// `loop n early-exit`: the contract was written for a loop that leaves early (break / continue)
+    pub early_exit: bool,
     /// (keyword, clause) keyword in invariant / invariant_except_break / ensures / decreases
     pub clauses: Vec<(String, Clause)>,
 }
@@ -234,6 +236,8 @@ pub fn parse(text: &str, path: &str) -> Unit {
                         let ls = c.loops.entry(n).or_default();
                         if kw == "iter-name" {
                             ls.iter_name = Some(tail.trim().to_string());
+                        } else if kw == "early-exit" {
+                            ls.early_exit = true;
                         } else if kw == "decreases" {
                             let txt = take_text(&lines, &mut i, tail);
                             ls.clauses.push((kw, Clause { id: String::new(), props: vec![], text: txt }));
